@@ -52,6 +52,8 @@ class Hist:
                 if 'Pictures/logo.gif' not in doc.Pictures and rng.random() < 0.8:
                     data = b'LOGO-of-doc-%d' % dno
                     self.picrefs.append((doc, doc.addPicture('Pictures/logo.gif', 'image/gif', data), data, 'image/gif'))
+        for dsub in docs[1:]:
+            if rng.random() < 0.25: dsub.addThumbnail(b'sub-thumb')          # (a thumbnail belongs to the package: only the root's is written)
         self.thumb = None
         if rng.random() < 0.3:
             self.thumb = bytes([rng.randrange(256) for _ in range(20)]); self.root.addThumbnail(self.thumb)
